@@ -306,6 +306,10 @@ class DirectCollocation(SamplingMethod):
                 for k in list(range(self.N))+[-1]:
                     target = self.eval_at_control(stage, var, k)
                     value_k = value
+                    if k==-1 and ca.is_equal(target, self.eval_at_control(stage, var, self.N-1), 2):
+                        # Per-interval quantity (control, variable on the control grid): no separate entry at
+                        # the final node, so this pass would overwrite the guess of the last interval
+                        continue
                     if target.numel()*(self.N)==value.numel() or target.numel()*(self.N+1)==value.numel():
                         value_k = value[:,k]
                     try:
